@@ -67,30 +67,40 @@ def fmtInt (width : Nat) (i : Int) : Str :=
 def pyFmtInt (T : Tables) (width : Nat) (i : Int) : Except Raise Str :=
   if intFits T i then .ok (fmtInt width i) else .error .valueError
 
+/-- the rest of the digit string of `int()` after a digit: the end, or a digit, or one underscore
+    followed by a digit -/
+def digitsAfter (T : Tables) : Str → Option (List Nat)
+  | [] => some []
+  | '_' :: c :: rest =>
+    match digitVal T c with
+    | some d => (digitsAfter T rest).map (d :: ·)
+    | none => none
+  | c :: rest =>
+    match digitVal T c with
+    | some d => (digitsAfter T rest).map (d :: ·)
+    | none => none
+
 /-- the digit string of `int()`: digits with single underscores between them -/
 def parseDigitBody (T : Tables) : Str → Option (List Nat)
   | [] => none
-  | [c] => (digitVal T c).map ([·])
-  | c :: '_' :: rest =>
-    match digitVal T c, parseDigitBody T rest with
-    | some d, some ds => some (d :: ds)
-    | _, _ => none
   | c :: rest =>
-    match digitVal T c, parseDigitBody T rest with
-    | some d, some ds => some (d :: ds)
-    | _, _ => none
+    match digitVal T c with
+    | some d => (digitsAfter T rest).map (d :: ·)
+    | none => none
+
+/-- optional sign of `int()` -/
+def splitSign : Str → Bool × Str
+  | '-' :: r => (true, r)
+  | '+' :: r => (false, r)
+  | r => (false, r)
 
 /-- `int(s)` for a `str` without surrounding whitespace: `none` = ValueError -/
 def pyIntOfStr (T : Tables) (s : Str) : Option Int :=
-  let (neg, body) := match s with
-    | '-' :: r => (true, r)
-    | '+' :: r => (false, r)
-    | r => (false, r)
-  match parseDigitBody T body with
+  match parseDigitBody T (splitSign s).2 with
   | none => none
   | some ds =>
     if ds.length > T.maxDigits then none          -- "Exceeds the limit (4300 digits)"
-    else some (if neg then - (digitsVal ds : Int) else (digitsVal ds : Int))
+    else some (if (splitSign s).1 then - (digitsVal ds : Int) else (digitsVal ds : Int))
 
 /-! ### native values -/
 
